@@ -3,7 +3,7 @@ from checks import krill_common as kc
 
 PID = "C03"
 LEVEL = "model_checking"
-THEMES = "life,roll,multi".split(",")
+THEMES = "life,roll,multi,mix".split(",")
 NEEDED = "Settled".split(",")
 
 RULE = (
@@ -62,7 +62,7 @@ def run(tier, seed):
         assumptions=kc.COMMON_ASSUMPTIONS, rule=RULE, needed_events=NEEDED,
         mc_cfgs=(['MC_Krill_q_roll.cfg', 'MC_Krill_q_life.cfg'] if tier == "quick" else ['MC_Krill_q_roll.cfg', 'MC_Krill_q_life.cfg', 'MC_Krill_roll.cfg', 'MC_Krill_life.cfg']),
         directed=DIRECTED + kc.MULTI_DIRECTED,
-        theme_nums={"multi": (6, 80)})
+        theme_nums={"multi": (6, 80), "mix": (6, 60)})
 
 
 def replay(path, seed):
